@@ -624,7 +624,8 @@ def _compute_expression_ir(
     base_ir["name"] = naming.expression_name(original_expr, prefix, index)
 
     original_expr = expr[2]
-    points = expr[1]
+    # (in double precision, as in the signature: the rule is identified by its buffer)
+    points = np.asarray(expr[1], dtype=np.float64)
     expr = expr[0]
 
     expr_domain = max(
